@@ -13,6 +13,8 @@ pub mod c08;
 #[cfg(kani)]
 pub mod c17;
 #[cfg(kani)]
+pub mod c13;
+#[cfg(kani)]
 pub mod c01;
 #[cfg(kani)]
 #[path = "gen/playback.rs"]
